@@ -327,7 +327,9 @@ def gen_config(rng, prop, tier):
 
 ARG_POOL = [0, 1, 2, 3, 4, 5, 6, 'a', 'b', 1.5, 2.25, None]
 # rarer argument kinds, mixed into some runs: empty and longer strings, a negative and a big int, a tuple, bytes
-ARG_EXTRA = ['', 'a longer string, with "quotes"', -1, 10 ** 20, {'$t': [1, 2]}, {'$b': '00ff'}]
+ARG_EXTRA = ['', 'a longer string, with "quotes"', -1, 10 ** 20, {'$t': [1, 2]}, {'$b': '00ff'},
+             # two arguments whose key strings exceed a file name's length and differ only at the very end
+             'P' * 270 + '1', 'P' * 270 + '2', 'dir/with/slashes']
 KW_NAMES = ['p', 'q']
 
 
@@ -448,7 +450,7 @@ OPMIX = {
     'C06': [(100, 'call'), (6, 'rcall')],
     'C07': [(70, 'call'), (4, 'peer_call'), (3, 'load'), (3, 'load_k'), (4, 'dump'), (2, 'dump_k'), (2, 'clear'),
             (2, 'off'), (3, 'on'), (2, 'restart_dump'), (1, 'swap')],
-    'C15': [(60, 'call'), (3, 'peer_call'), (4, 'load'), (2, 'load_k'), (4, 'dump'), (2, 'dump_k'), (4, 'clear'),
+    'C15': [(60, 'call'), (3, 'codeco_call'), (3, 'peer_call'), (4, 'load'), (2, 'load_k'), (4, 'dump'), (2, 'dump_k'), (4, 'clear'),
             (3, 'clear_keep'), (3, 'off'), (3, 'on'), (2, 'swap'), (3, 'restart'), (3, 'restart_dump'),
             (3, 'clone'), (5, 'rcall'), (3, 'bad')],
     'C16': [(55, 'call'), (14, 'rcall'), (8, 'bad'), (3, 'load'), (3, 'dump'), (2, 'clear'), (2, 'off'),
@@ -467,6 +469,8 @@ def generate(rng, prop, tier):
     pool = list(ARG_POOL)
     if rng.chance(0.3):
         extra = [dec(e) for e in rng.sample(ARG_EXTRA, rng.randint(1, 3))]
+        if rng.chance(0.3):
+            extra = [dec(e) for e in ARG_EXTRA[6:8]] + extra[:1]
         if km['kind'] == 'pickle' and km['arg'] == 'json':
             extra = [e for e in extra if not isinstance(e, (bytes, tuple))]
         pool = pool + extra
@@ -508,7 +512,7 @@ def generate(rng, prop, tier):
             kind, burst = 'call', burst - 1
         elif prop == 'C06' and rng.chance(0.03):
             burst = rng.randint(10, 40)      # hit bursts fill the LRU queue
-        if kind in ('call', 'rcall', 'key', 'lookup', 'peer_call', 'sibling_call'):
+        if kind in ('call', 'rcall', 'key', 'lookup', 'peer_call', 'sibling_call', 'codeco_call'):
             if recent and rng.chance((0.55 if not cfg.get('wide') else 0.25) if burst == 0 else 0.95):
                 c = rng.choice(recent[-3:])
             elif rng.chance(0.85):
@@ -518,7 +522,7 @@ def generate(rng, prop, tier):
             op = spell(rng, fn, c)
             if kind == 'rcall':
                 op['raises'] = True
-            elif kind in ('key', 'lookup', 'peer_call', 'sibling_call'):
+            elif kind in ('key', 'lookup', 'peer_call', 'sibling_call', 'codeco_call'):
                 op['op'] = kind
             else:
                 recent.append(c)
@@ -654,6 +658,8 @@ class World(object):
             dec_ = cls(cfg['maxsize'], **kw)
         else:
             dec_ = cls(maxsize=cfg['maxsize'], **kw)
+        self.dec_ = dec_
+        self.h = None
         try:
             self.f = dec_(self.fn)
         except Exception as e:
@@ -1013,6 +1019,27 @@ def run_world(case, prop, root, name, skip, fs, clock, probes, faults, log):
             orc.on_call(op, key, keyerr, before, after, outcome, w.evals[n0:])
             trace.append((step, after, outcome[0], outcome[1] if outcome[0] == 'ok' else type(outcome[1]).__name__))
             before = after
+            continue
+        if kind == 'codeco_call':
+            # the same decorator OBJECT applied a second time (memo = lru_cache(...); f = memo(fn); h = memo(fn)):
+            # the two functions share the cache by construction, but what h does is not a call of f, so
+            # f's hit/miss/load counters must not move
+            if w.h is None:
+                w.h = w.dec_(w.fn)
+            args, kw = _decode_call(op)
+            try:
+                w.h(*args, **kw)
+            except Exception as e:
+                raise Mismatch('unexpected-exception:' + type(e).__name__, 'function sharing the decorator: call %s '
+                               'raised %s: %s' % (show_op(op), type(e).__name__, str(e)[:200]))
+            bump(faults, 'call-through-shared-decorator')
+            after = w.observe()
+            if prop == 'C15' and tuple(after['info'])[:3] != tuple(before['info'])[:3]:
+                raise Mismatch('stats', 'a call of ANOTHER function made with the same decorator object changed this '
+                               "function's counters from %r to %r" % (tuple(before['info'])[:3], tuple(after['info'])[:3]))
+            orc.reset_usage()
+            before = after
+            trace.append((step, before, 'codeco', None))
             continue
         if kind == 'sibling_call':
             # unrelated activity in the same process: a function sharing fn's code object but with other
